@@ -39,6 +39,7 @@ class CoralReefOptimization(OptimizationAbstract):
 
     def before_initialization(self):
         _, self.__G1 = self._config.gamma
+        self.__dyn_Pd = 0
         self.__alpha = 10 * self._config.Pd / self._config.max_cycles
         self.__gamma = 10 * (self._config.gamma[1] - self._config.gamma[0]) / self._config.max_cycles
         self.__num_occupied = int(self._config.population_size / (1 + self._config.po))
